@@ -51,6 +51,13 @@ def handle : List String → String
       match (if m = "all" then some Method.all else if m = "last" then some Method.last else none), evs.mapM parseEv with
       | some meth, some es => renderSt (run meth es)
       | _, _ => "bad-op"
+  | "loopoutprov" :: m :: evs =>
+      match (if m = "all" then some Method.all else if m = "last" then some Method.last else none), evs.mapM parseEv with
+      | some meth, some es =>
+          let ps := runProv meth {} es
+          if ps.isEmpty then "-" else ";".intercalate (ps.map (fun p => renderTag' p.1 ++ "<-[" ++
+            ",".intercalate (p.2.map (fun x => renderTag' x.tag ++ ":" ++ toString x.val)) ++ "]"))
+      | _, _ => "bad-op"
   | "number" :: ts =>
       match ts.mapM parseNEv with
       | some l =>
